@@ -56,6 +56,17 @@ check('C10',
       'machine-checked proof in Coq (Q) of a check-by-check model + correspondence run (vm_compute)',
       'DESIGN.md 5 C10')
 
+check('C12',
+      'Coq theorems (Props/C12.v, axiom-free) on a model mirroring snippet line by line (bounds test on the double t+n, int(t), residual '
+      'shift, the 1e-8 no-op threshold of time_shift, one-sample crop, re-slice): ValueError exactly when n<0, t<0 or t+n>len; otherwise '
+      'exactly n samples, start = start + t/rate exactly (None stays None), window offset floor(t); whole-sample t is the plain slice '
+      '(bit-identical data). PARTIAL: the band-limited value of fractional snippets is checked numerically against an independent O(N^2) '
+      'longdouble interpolant (tolerance 1e-5 max|x|, set by the complex64 ramp), not proved here (DFT shift theorem: C03).',
+      'Trusted: Coq kernel; scipy.fft = mathematical DFT (validated numerically each run); astropy Time/Quantity within tolerance. Known '
+      'finding D12 (boundary requests given as Time/Quantity may raise) is listed in known_findings.json.',
+      'machine-checked proof in Coq (Q) + correspondence run + numerical oracle for values',
+      'DESIGN.md 5 C12')
+
 ALL = [f'C{i:02d}' for i in range(1, 21)]
 
 def main():
